@@ -202,6 +202,12 @@ Section Divide.
     do l <- mapM (fun d => setup_terms_of_degree fuel nv D d) (seq 1 D);
     Ok (map (fun ms => (ms_value betas ms, exps_of nv ms)) (concat l) ++ [(f1, repeat 0 nv)]).
 
+  (* powers_of_gamma_g[i][j] = gamma_g * beta_i^(j+1), j = 0..D (relative to gamma_g) *)
+  Definition setup_gamma_powers (D : nat) (betas : list F) : list (list F) :=
+    map (fun b => map (fun j => fpow b (S j)) (seq 0 (S D))) betas.
+  (* trim keeps the first supported+1 of each *)
+  Definition trim_gamma_powers (s : nat) (gp : list (list F)) : list (list F) := map (firstn (S s)) gp.
+
   (* commit/open/check in the discrete-log view (non-hiding): C = g*p(beta), w_i = g*q_i(beta),
      check: (C - g*v) * h = sum_i w_i * (beta_i*h - z_i*h) *)
   Definition pst_commit (g : F) (betas : list F) (p : mpoly) : F := fmul g (eval_mpoly betas p).
